@@ -13,6 +13,14 @@ func arg(args []Value, i int) Value {
 	return Undefined
 }
 
+// altThis applies AltCallUndefinedThisGlobal to a thisArg.
+func (in *Interp) altThis(t Value) Value {
+	if IsUndef(t) && in.Flags&AltCallUndefinedThisGlobal != 0 {
+		return in.Global
+	}
+	return t
+}
+
 func (in *Interp) newStringObject(s string) *Obj {
 	o := newObj("String", in.StringProto)
 	o.Prim = s
@@ -214,6 +222,40 @@ func NewInterp() *Interp {
 		}
 		return in.NewArray(out)
 	})
+	// 15.2.3.8 seal, 15.2.3.9 freeze, 15.2.3.10 preventExtensions
+	sealOrFreeze := func(freeze bool) NativeFn {
+		return func(in *Interp, this Value, args []Value) Value {
+			o := in.needObj(arg(args, 0), "Object.seal/freeze")
+			for _, k := range o.OwnKeys() {
+				cur := o.getOwn(in, k)
+				if cur == nil {
+					continue
+				}
+				d := &Desc{E: cur.E, HasE: true, C: false, HasC: true}
+				if cur.IsAcc {
+					d.Get, d.HasGet, d.Set, d.HasSet = cur.Get, true, cur.Set, true
+				} else {
+					d.Value, d.HasValue, d.W, d.HasW = cur.Value, true, cur.W, true
+					if freeze {
+						d.W = false
+					}
+				}
+				o.DefineOwn(in, k, d, true)
+			}
+			o.Ext = false
+			return o
+		}
+	}
+	in.method(object, "seal", 1, sealOrFreeze(false))
+	in.method(object, "freeze", 1, sealOrFreeze(true))
+	in.method(object, "preventExtensions", 1, func(in *Interp, this Value, args []Value) Value {
+		o := in.needObj(arg(args, 0), "Object.preventExtensions")
+		o.Ext = false
+		return o
+	})
+	in.method(object, "isExtensible", 1, func(in *Interp, this Value, args []Value) Value {
+		return in.needObj(arg(args, 0), "Object.isExtensible").Ext
+	})
 	in.method(object, "getOwnPropertyDescriptor", 2, func(in *Interp, this Value, args []Value) Value {
 		o := in.needObj(arg(args, 0), "Object.getOwnPropertyDescriptor")
 		d := o.getOwn(in, ToString(in, arg(args, 1)))
@@ -242,6 +284,9 @@ func NewInterp() *Interp {
 			return "[object Undefined]"
 		case nullT:
 			return "[object Null]"
+		}
+		if o, ok := this.(*Obj); ok && o == in.Global && in.Flags&AltCallUndefinedThisGlobal != 0 {
+			return "[object environment]" // otto's [[Class]] of the global object (implementation-defined)
 		}
 		return "[object " + ToObject(in, this).Class + "]"
 	})
@@ -287,7 +332,7 @@ func NewInterp() *Interp {
 		if !ok || !f.Callable() {
 			in.ThrowError("TypeError", "Function.prototype.apply called on non-callable")
 		}
-		thisArg, argArray := arg(args, 0), arg(args, 1)
+		thisArg, argArray := in.altThis(arg(args, 0)), arg(args, 1)
 		if IsUndef(argArray) || IsNull(argArray) {
 			return in.CallFn(f, thisArg, nil)
 		}
@@ -312,7 +357,7 @@ func NewInterp() *Interp {
 		if len(args) > 1 {
 			rest = args[1:]
 		}
-		return in.CallFn(f, arg(args, 0), rest)
+		return in.CallFn(f, in.altThis(arg(args, 0)), rest)
 	})
 	// 15.3.4.5
 	in.method(fp, "bind", 1, func(in *Interp, this Value, args []Value) Value {
@@ -323,7 +368,7 @@ func NewInterp() *Interp {
 		b := newObj("Function", in.FunctionProto)
 		b.IsBound = true
 		b.BoundTarget = t
-		b.BoundThis = arg(args, 0)
+		b.BoundThis = in.altThis(arg(args, 0))
 		if len(args) > 1 {
 			b.BoundArgs = append([]Value(nil), args[1:]...)
 		}
